@@ -11,6 +11,7 @@ from . import simrun as R
 
 COMP = 'simple'
 FUEL = 300
+PAD = 3
 ENTRY = 'Gillespie_simple_contagion'
 
 
@@ -322,6 +323,8 @@ def call_impl(EoN, case, full=None):
     if case['kwargs']:
         kw['spont_kwargs'] = {'scale': 2}; kw['nbr_kwargs'] = {'scale': 2}
     fn = getattr(EoN, case.get('entry', ENTRY))
+    if case.get('entry') == 'Gillespie_Arbitrary' and case.get('alias_sim_kwargs'):
+        kw['sim_kwargs'] = {}                      # the legacy alias does **sim_kwargs: None is not a mapping
     with contextlib.redirect_stdout(io.StringIO()):
         return fn(G, H, J, IC, tuple(rs) if len(rs) % 2 else rs, **kw)
 
@@ -330,9 +333,12 @@ def run_impl(EoN, sim, case, draws, full=None):
     gc = case['gc']
     codes, _ = status_codes(case)
     rcode = {render(x, case['form']): c for x, c in codes.items()}
-    s = R.Scripted(draws, gc.idmap)
+    # a few spare draws after the model's script: an implementation that asks for more than the
+    # model predicts shows the extra calls (with their arguments) in its log instead of just stopping
+    padded = list(draws) + [F(1, 2)] * PAD
+    s = R.Scripted(padded, gc.idmap)
     st, val = R.run_impl(lambda: call_impl(EoN, case, full), s, sim)
-    out = {'status': st, 'log': s.log, 'used': s.i}
+    out = {'status': st, 'log': s.log, 'used': s.i, 'draws': padded}
     if st == 'EXC': out['err'] = val
     if st == 'OK':
         isfull = case['full'] if full is None else full
@@ -360,11 +366,13 @@ def compare(case, m, impl):
     """None when model and implementation agree on trace and outputs"""
     if m['status'] == 'DRIVERFAIL':
         return 'model driver failure: %r' % (m.get('raw'),)
+    if m['status'] == 'ERR' and m['err'] in ('OutOfDraws', 'OutOfFuel'):
+        # the script was cut (draw budget of the walker): only the common prefix of the calls is comparable
+        k = min(len(impl['log']), len(m['trace']))
+        return R.compare_trace(impl['log'][:k], m['trace'][:k])
     d = R.compare_trace(impl['log'], m['trace'])
     if d: return d
     if m['status'] == 'ERR':
-        if m['err'] in ('OutOfDraws', 'OutOfFuel'):
-            return None if impl['status'] in ('OUT', 'OK') else 'model %s, implementation raised %s' % (m['err'], impl.get('err'))
         if impl['status'] != 'EXC' or R.ERRMAP.get(impl['err'], impl['err']) != m['err']:
             return 'model raises %s, implementation %s %s' % (m['err'], impl['status'], impl.get('err', ''))
         return None
@@ -395,7 +403,7 @@ def case_json(case, draws=None):
          'ic': [[repr(u), s] for u, s in case['ic'].items()], 'ic_form': case['ic_form'], 'rstat': case['rstat'],
          'tmin': str(case['tmin']), 'tmax': None if case['tmax'] is None else str(case['tmax']), 'full': case['full'],
          'shape': case['shape'], 'kwargs': case['kwargs'], 'isolated_status_nodes': case['isolated_status_nodes'],
-         'entry': case.get('entry', ENTRY)}
+         'entry': case.get('entry', ENTRY), 'alias_sim_kwargs': case.get('alias_sim_kwargs', False)}
     if draws is not None: j['draws'] = [str(d) for d in draws]
     return j
 
@@ -410,7 +418,7 @@ def case_from_json(j):
             'ic': {eval(u): s for u, s in j['ic']}, 'ic_form': j['ic_form'], 'rstat': j['rstat'],
             'tmin': F(j['tmin']), 'tmax': None if j['tmax'] is None else F(j['tmax']), 'full': j['full'],
             'shape': j['shape'], 'kwargs': j['kwargs'], 'isolated_status_nodes': j['isolated_status_nodes'],
-            'entry': j.get('entry', ENTRY)}
+            'entry': j.get('entry', ENTRY), 'alias_sim_kwargs': j.get('alias_sim_kwargs', False)}
 
 
 # ---------------------------------------------------------------- L0 oracle ----
@@ -440,7 +448,7 @@ def oracle_spec(case, impl, m=None):
     histories and transmissions track the replayed statuses; the run stops iff the total
     rate is 0 or t >= tmax; EoNError iff the specification is malformed."""
     bad = []
-    if impl['status'] == 'OUT' or case['missing']:
+    if case['missing']:
         return bad                                   # partial weight labels are outside the property's domain
     if is_malformed(case):
         if not (impl['status'] == 'EXC' and impl['err'] == 'EoNError'):
@@ -450,7 +458,7 @@ def oracle_spec(case, impl, m=None):
     scale = 2 if case['kwargs'] else 1
     sp, ind = cascade_order(case)
     trs = [('sp', t) for t in sp] + [('in', t) for t in ind]
-    draws = [F(x) for x in (m['draws'] if m else [])]
+    draws = [F(x) for x in (impl.get('draws') or (m['draws'] if m else []))]
     log = impl['log']
     nbrs = {u: list(G.neighbors(u)) for u in gc.order}
     st = dict(case['ic'])
@@ -492,13 +500,14 @@ def oracle_spec(case, impl, m=None):
             bad.append(('state/total-rate', 'after %d events the waiting time was drawn with %r; the specification\'s total rate in that state is %s (per transition %s)' % (steps, e, tot, [str(r) for r in rates])))
             break
         if di - 1 >= len(draws): judged = False; break
+        if not (draws[di - 1] >= 0): judged = False; break
         t = t + draws[di - 1]
         if tmax is not None and t >= tmax:
             if pos < len(log):
                 bad.append(('state/beyond-tmax', 'event after t=%s >= tmax=%s: %r' % (t, tmax, log[pos])))
             break
         e = nxt()
-        if e is None: judged = False; break
+        if e is None or di - 1 >= len(draws): judged = False; break
         if e[0] != 'U':
             bad.append(('state/cascade', 'expected the transition-selecting uniform draw, got %r' % (e,))); break
         u = draws[di - 1]
@@ -525,6 +534,7 @@ def oracle_spec(case, impl, m=None):
                 bad.append(('state/candidates', 'after %d events, transition %s (cell %d, u=%s): candidates %r offered; the enabled actors of that transition are %r' % (steps, descr(kind, tr), cell, u, cands, sorted(truth))))
                 break
             if not cands: break
+            if di - 1 >= len(draws) or int(draws[di - 1]) >= len(cands): break      # the script no longer fits: not judged further
             pick = sorted(cands)[int(draws[di - 1])]
             if weighted:
                 e2 = nxt()
